@@ -88,6 +88,14 @@ SIGS['every-nounknown'] = {
     'specials': SIGS['every']['specials'], 'verb': False,
 }
 
+SIGS['default-noverb'] = dict(SIGS['default'], verb=False)
+SIGS['every-noverb'] = dict(SIGS['every'], macros={k: v for k, v in SIGS['every']['macros'].items()
+                                                   if k not in ('mv', 'mvb')})
+# which real context a signature table is parsed with
+CTX_OF = {'default': 'default', 'every': 'every', 'default-noverb': 'default',
+          'every-noverb': 'every', 'every-strings': 'every-strings',
+          'every-nounknown': 'every-nounknown'}
+
 LETTERS = 'abcxyzABZ'
 TEXTCHARS = LETTERS + '0123456789' + '.;:()'
 WS_INLINE = [' ', '  ', '\n', ' \n', '\n ', ' \n  ', '\t']
